@@ -60,9 +60,9 @@ def f1(spec, x):
         return x[spec[1]]
     if op == 'fanout':      # for flatten: k tagged copies that stay distinguishable
         return tuple((j, x) for j in range(spec[1]))
-    if op == 'falsy':       # some elements become a falsy value (0 or ()): code must not confuse "empty" with "absent"
+    if op == 'falsy':       # some elements become a falsy value (0, () or None): code must not confuse "empty" with "absent"
         if weight(x) % spec[1] == spec[2]:
-            return 0 if spec[3] else ()
+            return ((), 0, None)[spec[3]]
         return x
     if op == 'wcap':        # feedback template: folds any value into a bounded entry-point-like int
         return TOKEN_BASE + weight(x) % spec[1]
